@@ -11,6 +11,7 @@ mod ops_boxobj;
 mod ops_curve;
 mod ops_hash;
 mod ops_pwhash;
+mod ops_rand;
 mod ops_stream;
 mod util;
 
@@ -30,6 +31,9 @@ fn dispatch(op: &str, args: &[&str]) -> Ans {
         return a;
     }
     if let Some(a) = ops_pwhash::dispatch(op, args) {
+        return a;
+    }
+    if let Some(a) = ops_rand::dispatch(op, args) {
         return a;
     }
     if let Some(a) = ops_stream::dispatch(op, args) {
